@@ -223,3 +223,33 @@ Proof.
   - apply (Hnone (mkConn true 101 2)); [right; left; reflexivity|]. split; [reflexivity|vm_compute; discriminate].
   - cbn in Hn. injection Hn as <-. discriminate Ha.
 Qed.
+
+(** ---- BestMasterchainClient handing out the captured connection's head instead of the
+    head it received ----
+    BestMasterchainClient captures the best connection, and if that one has no head yet waits
+    (subscribe(1)) and returns the head it RECEIVES.  Returning the captured connection's
+    current head instead looks equivalent — but while the call waits a refresh may switch the
+    best connection; the head that wakes the caller is then the new best connection's, and the
+    captured connection's own head is still the all-zero one: success with a head (seqno 0)
+    that no connection ever reported. *)
+Definition stale_head_trace : list label :=
+  [ LSubWant 0; LSubLock 0; LSubBody 0;                          (* the choice (connection 0) has no head: wait for the first one *)
+    LSetHead 1 7; LPublish 0; LTake; LRLock [0]; LRUnlock;       (* connection 1 reports 7: not the best one, nobody notified *)
+    LTick; LUpdLock; LUpdDone [(false, 1%Z); (true, 1%Z)] [];    (* connection 0 died: the refresh switches to connection 1 *)
+    LSetHead 1 8; LPublish 0; LTake; LRLock [0]; LSend; LRUnlock; (* the new best connection reports 8: the waiter is notified *)
+    LRecv 0 ].
+
+Theorem reread_captured_head_refuted :
+  exists s, reachable BestPing false false 2 (fun _ => 1%N) (init_state (fun _ => 0%N) (Some 0)) s /\
+    wpc s 0 = WUnsub ROk /\                 (* the call returns success ... *)
+    wgot s 0 = Some (1, 8%N) /\            (* ... it received head 8 of the best connection ... *)
+    best s = Some 1 /\
+    head s 0 = 0%N /\                      (* ... while the connection captured at call time is still at the all-zero head, *)
+    ~ (1 <= head s 0)%N.                   (* which is not "at or beyond the awaited seqno" *)
+Proof.
+  destruct (run BestPing false false 2 (fun _ => 1%N) (init_state (fun _ => 0%N) (Some 0)) stale_head_trace)
+    as [s|] eqn:Hrun; [|vm_compute in Hrun; discriminate].
+  exists s. split; [eapply run_reachable_g; [apply reach_init|exact Hrun]|].
+  vm_compute in Hrun. injection Hrun as <-. sred.
+  repeat apply conj; try reflexivity. vm_compute. intros H. apply H. reflexivity.
+Qed.
